@@ -328,10 +328,23 @@ func VerifC03Shape() {
 	g := &c3gen{}
 	depth := verifrt.Param("depth")
 	var root *c3node
+	wrap := verifrt.Param("wrap")
 	if depth == 0 {
 		root = g.fixed(verifrt.Param("id"))
 	} else {
-		root = g.build(verifrt.Param("id")%c3Count(depth), depth, false)
+		root = g.build(verifrt.Param("id")%c3Count(depth), depth, wrap == 3)
+	}
+	// the shape nested inside an enclosing construct: every shape is also
+	// exercised with enclosing handlers and loops around it
+	switch wrap {
+	case 1:
+		root = g.try(g.wrap(root), nil, g.part(0, nil, false), false)
+	case 2:
+		root = g.try(g.wrap(root), g.part(0, nil, false), g.exitLeaf(false), true)
+	case 3:
+		root = g.loop(g.wrap(g.try(g.wrap(root), nil, g.part(0, nil, true), false)))
+	case 4:
+		root = g.call(g.wrap(g.try(g.wrap(root), nil, g.part(0, nil, false), false)))
 	}
 	nsite := g.nsite
 	verifrt.Assume(nsite >= 1 && nsite <= verifrt.Param("maxsites"))
